@@ -1858,9 +1858,19 @@ double Analyser::AnalyserImpl::powerValue(const AnalyserEquationAstPtr &ast,
             return NAN;
         }
 
+        double initialValueValue;
+
+        if (!convertToDouble(initialValue, initialValueValue)) {
+            // Note: the variable is initialised using another variable.
+
+            powerData.mExponentValueAvailable = false;
+
+            return NAN;
+        }
+
         powerData.mExponentValueChangeable = true;
 
-        return std::stod(initialValue);
+        return initialValueValue;
     }
     case AnalyserEquationAst::Type::CN:
         return std::stod(ast->value());
